@@ -323,6 +323,20 @@ func fullLoopsOver(info *types.Info, root ast.Node, isSrc func(e ast.Expr) bool)
 		switch lp := nd.(type) {
 		case *ast.RangeStmt:
 			if !src(lp.X) {
+				// `for i := range len(S)` / `for range n` with n := len(S): once per element
+				if c, ok := ast.Unparen(deref(info, lp.X)).(*ast.CallExpr); ok && len(c.Args) == 1 && lp.Value == nil {
+					if id, isID := c.Fun.(*ast.Ident); isID && id.Name == "len" && info.Uses[id] == types.Universe.Lookup("len") && src(c.Args[0]) {
+						var iv types.Object
+						if lp.Key != nil {
+							iv = prog.IdentObj(info, lp.Key)
+						}
+						sx := types.ExprString(ast.Unparen(c.Args[0]))
+						out = append(out, fullLoop{Stmt: lp, Body: lp.Body, Idx: iv, IsElem: func(e ast.Expr) bool {
+							ix, ok := ast.Unparen(e).(*ast.IndexExpr)
+							return ok && iv != nil && prog.IdentObj(info, ix.Index) == iv && types.ExprString(ast.Unparen(ix.X)) == sx
+						}})
+					}
+				}
 				return true
 			}
 			var iv, vv types.Object
@@ -381,6 +395,9 @@ func fullLoopsOver(info *types.Info, root ast.Node, isSrc func(e ast.Expr) bool)
 				if tv, ok := info.Types[be.Y]; ok && tv.Value != nil && tv.Value.String() == "1" {
 					bound, minusOne = ast.Unparen(be.X), true
 				}
+			}
+			if _, isCall := bound.(*ast.CallExpr); !isCall {
+				bound = ast.Unparen(deref(info, bound)) // n := len(S)
 			}
 			if c, ok := bound.(*ast.CallExpr); ok && len(c.Args) == 1 {
 				if id, ok := c.Fun.(*ast.Ident); ok && id.Name == "len" {
@@ -446,3 +463,82 @@ func orientCmp(b *ast.BinaryExpr, isLeft func(ast.Expr) bool) *ast.BinaryExpr {
 	}
 	return &ast.BinaryExpr{X: b.Y, OpPos: b.OpPos, Op: flipCmp(b.Op), Y: b.X}
 }
+
+// typeSwitches lists the dispatches on a value's dynamic type under root: type switch statements,
+// and if / else-if chains of comma-ok type assertions on the same operand (`if _, ok := x.(A); ok
+// {..} else if _, ok := x.(B); ok {..} else {..}`), which are presented as the type switch they
+// spell out (at least two typed branches; the final else is the default clause).
+func typeSwitches(info *types.Info, root ast.Node) []*ast.TypeSwitchStmt {
+	var out []*ast.TypeSwitchStmt
+	inChain := map[*ast.IfStmt]bool{}
+	assertOf := func(is *ast.IfStmt) *ast.TypeAssertExpr {
+		as, ok := is.Init.(*ast.AssignStmt)
+		if !ok || len(as.Lhs) != 2 || len(as.Rhs) != 1 {
+			return nil
+		}
+		ta, ok := ast.Unparen(as.Rhs[0]).(*ast.TypeAssertExpr)
+		if !ok || ta.Type == nil {
+			return nil
+		}
+		okID, isID := as.Lhs[1].(*ast.Ident)
+		cond, isCond := ast.Unparen(is.Cond).(*ast.Ident)
+		if !isID || !isCond {
+			return nil
+		}
+		o := info.Defs[okID]
+		if o == nil {
+			o = info.Uses[okID]
+		}
+		if o == nil || info.Uses[cond] != o {
+			return nil
+		}
+		return ta
+	}
+	inspect(root, func(nd ast.Node) bool {
+		switch x := nd.(type) {
+		case *ast.TypeSwitchStmt:
+			out = append(out, x)
+		case *ast.IfStmt:
+			if inChain[x] {
+				return true
+			}
+			first := assertOf(x)
+			if first == nil {
+				return true
+			}
+			subject := types.ExprString(ast.Unparen(deref(info, first.X)))
+			body := &ast.BlockStmt{Lbrace: x.Pos()}
+			typed := 0
+			var chain []*ast.IfStmt
+			for cur := x; cur != nil; {
+				ta := assertOf(cur)
+				if ta == nil || types.ExprString(ast.Unparen(deref(info, ta.X))) != subject {
+					body.List = append(body.List, &ast.CaseClause{Case: cur.Pos(), Body: []ast.Stmt{cur}})
+					break
+				}
+				chain = append(chain, cur)
+				typed++
+				body.List = append(body.List, &ast.CaseClause{Case: cur.Pos(), List: []ast.Expr{ta.Type}, Body: cur.Body.List})
+				switch e := cur.Else.(type) {
+				case *ast.IfStmt:
+					cur = e
+					continue
+				case *ast.BlockStmt:
+					body.List = append(body.List, &ast.CaseClause{Case: e.Pos(), Body: e.List})
+				}
+				break
+			}
+			if typed >= 2 {
+				for _, c := range chain {
+					inChain[c] = true
+				}
+				out = append(out, &ast.TypeSwitchStmt{Switch: x.Pos(), Body: body})
+			}
+		}
+		return true
+	})
+	return out
+}
+
+func (l fullLoop) Pos() token.Pos { return l.Stmt.Pos() }
+func (l fullLoop) End() token.Pos { return l.Stmt.End() }
